@@ -6,6 +6,7 @@ import ast
 
 from engine.cfg import CFG, normalise_compare, atoms
 from engine.model import src, stmt_key, dotted, AnalysisError
+from engine import pat
 from engine.util import own_nodes, calls_with_nodes, where
 from rules.c14 import Tokenizer
 
@@ -173,9 +174,14 @@ def run(model, rep, tier):
 
     # ---------------------------------------------------------------- R-15.3
     sd = model.func("dns.dnssec._make_rrsig_signature_data")
-    tk = Tokenizer(sd.node)
+    # locals are named by the shape of their definition, so the rules below speak of roles, not spellings
+    sdn, _ = pat.canon(sd.node, [
+        "__signer = rrsig.signer", "(__rrname, __rdataset) = _get_rrname_rdataset(rrset)", "__data = b''", "__wire = rrsig.to_wire(origin=__signer)", "__name_len = len(__rrname)",
+        "__suffix = __rrname.split(rrsig.labels + 1)[1]", "__rrnamebuf = __rrname.to_digestable()", "__rrfixed = struct.pack('!HHI', ...)", "__rdatas = [__rdata.to_digestable(origin) for __rdata in __rdataset]",
+        "__rrlen = struct.pack('!H', ...)"])
+    tk = Tokenizer(sdn)
     seq = []
-    for st in sd.node.body:
+    for st in sdn.body:
         for n in [st] if not isinstance(st, ast.For) else [st]:
             if isinstance(n, ast.AugAssign) and src(n.target) == "data":
                 seq.append(("top", " ".join(src(n.value).split())))
@@ -194,19 +200,21 @@ def run(model, rep, tier):
               "type | class | ORIGINAL ttl", f"rrfixed = {defs.get('rrfixed')}", stmt="rr-fixed")
     rep.check(defs.get("rrlen") == ["struct.pack('!H', len(rdata))"], "R-15.3", sd.qualname, where(sd, sd.node), "u16 rdlength", f"rrlen = {defs.get('rrlen')}", stmt="rr-len")
     rep.check(defs.get("wire") == ["rrsig.to_wire(origin=signer)"], "R-15.3", sd.qualname, where(sd, sd.node), "RRSIG RDATA prefix taken from the RRSIG itself", f"wire = {defs.get('wire')}", stmt="rrsig-prefix")
-    t = " ".join(src(sd.node).split())
+    t = " ".join(src(sdn).split())
     rep.check("elif rrsig.labels < name_len - 1: suffix = rrname.split(rrsig.labels + 1)[1] rrname = dns.name.from_text('*', suffix)" in t, "R-15.3", sd.qualname, where(sd, sd.node),
               "wildcard reduction: owner replaced by *.<rightmost `labels` labels>", "wildcard label reduction changed", stmt="wildcard")
     mk = model.func("dns.dnssec.make_ds")
-    tk = Tokenizer(mk.node)
-    ups = [" ".join(src(c.args[0]).split()) for c in ast.walk(mk.node) if isinstance(c, ast.Call) and src(c.func) == "dshash.update"]
+    mkn, _ = pat.canon(mk.node, ["__dshash = hashlib.sha1()", "__wire = name.canonicalize().to_wire()", "__kwire = key.to_wire(origin=origin)", "__digest = __dshash.digest()", "__dsrdata = struct.pack('!HBB', ...) + __digest",
+                                 "__wire = name.to_wire()", "__kwire = key.to_wire()"])
+    tk = Tokenizer(mkn)
+    ups = [" ".join(src(c.args[0]).split()) for c in ast.walk(mkn) if isinstance(c, ast.Call) and src(c.func) == "dshash.update"]
     defs = {k: [" ".join(src(v).split()) for v in vs] for k, vs in tk.defs.items()}
     rep.check(ups == ["wire", "kwire"] and defs.get("wire") == ["name.canonicalize().to_wire()"] and defs.get("kwire") == ["key.to_wire(origin=origin)"], "R-15.3", mk.qualname, where(mk, mk.node),
               "DS digest = H(canonical owner | DNSKEY RDATA)", f"DS digest input is {ups} with wire={defs.get('wire')} kwire={defs.get('kwire')}", stmt="ds-composition")
     rep.check(defs.get("dsrdata") == ["struct.pack('!HBB', key_id(key), key.algorithm, algorithm) + digest"], "R-15.3", mk.qualname, where(mk, mk.node), "DS RDATA = key tag | algorithm | digest type | digest",
               f"DS RDATA = {defs.get('dsrdata')}", stmt="ds-rdata")
     hmap = {}
-    for n in ast.walk(mk.node):
+    for n in ast.walk(mkn):
         if isinstance(n, ast.If) and isinstance(n.test, ast.Compare) and src(n.test.left) == "algorithm":
             for s in n.body:
                 if isinstance(s, ast.Assign) and src(s.targets[0]) == "dshash":
@@ -214,17 +222,21 @@ def run(model, rep, tier):
     rep.check(hmap == {"DSDigest.SHA1": "hashlib.sha1()", "DSDigest.SHA256": "hashlib.sha256()", "DSDigest.SHA384": "hashlib.sha384()"}, "R-15.3", mk.qualname, where(mk, mk.node),
               "digest type selects the matching hash", f"digest type -> hash map is {hmap}", stmt="ds-hash-map")
     nh = model.func("dns.dnssec.nsec3_hash")
-    tk = Tokenizer(nh.node)
+    nhn, _ = pat.canon(nh.node, ["__domain_encoded = domain.canonicalize().to_wire()", "__domain_encoded = domain.to_wire()", "__digest = hashlib.sha1(__domain_encoded + __salt_encoded).digest()", "__digest = hashlib.sha1(__digest + __salt_encoded).digest()"])
+    tk = Tokenizer(nhn)
     defs = {k: [" ".join(src(v).split()) for v in vs] for k, vs in tk.defs.items()}
-    loops = [n for n in ast.walk(nh.node) if isinstance(n, ast.For)]
+    loops = [n for n in ast.walk(nhn) if isinstance(n, ast.For)]
     okk = defs.get("domain_encoded") == ["domain.canonicalize().to_wire()"] and "hashlib.sha1(domain_encoded + salt_encoded).digest()" in defs.get("digest", []) \
         and "hashlib.sha1(digest + salt_encoded).digest()" in defs.get("digest", []) and len(loops) == 1 and " ".join(src(loops[0].iter).split()) == "range(iterations)"
     rep.check(okk, "R-15.3", nh.qualname, where(nh, nh.node), "IH(salt, x, 0) = H(canonical x | salt); iterated `iterations` more times over H(prev | salt)",
               f"NSEC3 hash composition changed: domain_encoded={defs.get('domain_encoded')} digest={defs.get('digest')}", stmt="nsec3-composition")
-    rep.check("'ABCDEFGHIJKLMNOPQRSTUVWXYZ234567', '0123456789ABCDEFGHIJKLMNOPQRSTUV'" in src(nh.node) and "base64.b32encode(digest)" in src(nh.node), "R-15.3", nh.qualname, where(nh, nh.node),
+    rep.check("'ABCDEFGHIJKLMNOPQRSTUVWXYZ234567', '0123456789ABCDEFGHIJKLMNOPQRSTUV'" in src(nhn) and "base64.b32encode(digest)" in src(nhn), "R-15.3", nh.qualname, where(nh, nh.node),
               "output is base32hex (RFC 4648 7) of the digest", "NSEC3 output alphabet changed", stmt="nsec3-base32hex")
     cd = model.func("dns.zone.Zone._compute_digest")
-    t = " ".join(src(cd.node).split())
+    cdn, _ = pat.canon(cd.node, ["for (__name, __node) in sorted(self.items()):", "__rrnamebuf = __name.to_digestable(self.origin)", "for __rdataset in sorted(__node, key=...):", "__rrfixed = struct.pack('!HHI', ...)",
+                                 "__rdatas = [__rdata.to_digestable(self.origin) for __rdata in __rdataset]", "__rrlen = struct.pack('!H', ...)", "__hasher.update(__rrnamebuf + __rrfixed + __rrlen + __rdata)",
+                                 "if __name == __origin_name and dns.rdatatype.ZONEMD in (__rdataset.rdtype, __rdataset.covers):"])
+    t = " ".join(src(cdn).split())
     checks = [
         ("for (name, node) in sorted(self.items()):", "names in canonical order"),
         ("rrnamebuf = name.to_digestable(self.origin)", "owner in canonical form"),
@@ -247,7 +259,8 @@ def run(model, rep, tier):
 
     # ---------------------------------------------------------------- R-15.4
     sz = model.func("dns.dnssec._sign_zone_nsec")
-    loops = [n for n in sz.node.body if isinstance(n, ast.For)]
+    szn, _ = pat.canon(sz.node, ["for __name in sorted(txn.iterate_names()):", "for __name in txn.iterate_names():", "__rrsig_ttl = zone.get_soa(txn).minimum\n__delegation = None\n__last_secure = None"])
+    loops = [n for n in szn.body if isinstance(n, ast.For)]
     okk = len(loops) == 1 and " ".join(src(loops[0].iter).split()) == "sorted(txn.iterate_names())"
     rep.check(okk, "R-15.4", sz.qualname, where(sz, sz.node), "chain walks sorted(names)", "the NSEC chain no longer iterates sorted(txn.iterate_names())", stmt="sorted-names")
     if okk:
@@ -259,11 +272,13 @@ def run(model, rep, tier):
         t = " ".join(src(loops[0]).split())
         rep.check("if last_secure is not None: _txn_add_nsec(txn, last_secure, name, zone.rdclass, rrsig_ttl, rrset_signer) last_secure = name" in t, "R-15.4", sz.qualname, where(sz, loops[0]),
                   "each secure name gets an NSEC pointing to the next secure name", "NSEC linking changed", stmt="linking")
-    t = " ".join(src(sz.node).split())
+    t = " ".join(src(szn).split())
     rep.check("if last_secure: _txn_add_nsec(txn, last_secure, zone.origin, zone.rdclass, rrsig_ttl, rrset_signer)" in t, "R-15.4", sz.qualname, where(sz, sz.node),
               "the last name wraps to the origin", "the chain no longer wraps to the origin", stmt="wrap")
     an = model.func("dns.dnssec._sign_zone_nsec.<locals>._txn_add_nsec")
-    t = " ".join(src(an.node).split())
+    ann, _ = pat.canon(an.node, ["__mandatory_types = set([dns.rdatatype.RdataType.RRSIG, dns.rdatatype.RdataType.NSEC])", "__node = txn.get_node(name)", "__types = set([__rdataset.rdtype for __rdataset in __node.rdatasets]) | __mandatory_types",
+                                 "__windows = Bitmap.from_rdtypes(list(__types))"])
+    t = " ".join(src(ann).split())
     rep.check("mandatory_types = set([dns.rdatatype.RdataType.RRSIG, dns.rdatatype.RdataType.NSEC])" in t and
               "types = set([rdataset.rdtype for rdataset in node.rdatasets]) | mandatory_types" in t and "windows = Bitmap.from_rdtypes(list(types))" in t, "R-15.4", an.qualname, where(an, an.node),
               "bitmap = types present at the node + RRSIG + NSEC", "NSEC type bitmap composition changed", stmt="bitmap")
